@@ -313,3 +313,45 @@ package fpgo
 //@ func SetFrom
 //@   prop C04,C05
 //@   ensures made: r0 != nil && fresh(r0) && fresh(*r0) && forallv(x, has(*r0, x) == exists(i, 0, len(list), list[i] == x))
+
+// ===================================================================================================
+// C04 / C05 - StreamSetDef (key -> *StreamDef).  SS(s) = the map of s.  Clone is deep: the same keys, nil stays nil, every
+// stream is a fresh copy with the same items.  MinusStreams (non-empty operand): the receiver's keys, unchanged; under each key
+// that the operand maps to a non-empty stream, the receiver's stream minus the operand's (nil counts as empty); otherwise a
+// copy of the receiver's stream.  Nothing that existed before is written (frame).
+//@ define SS(s) = s.MapSetDef
+
+//@ func NewStreamSet
+//@   prop C04,C05
+//@   ensures empty: r0 != nil && fresh(r0) && SS(r0) != nil && fresh(SS(r0)) && len(SS(r0)) == 0 && forallv(x, !has(SS(r0), x))
+
+//@ func StreamSetFromMap
+//@   prop C04,C05
+//@   ensures copy: r0 != nil && fresh(r0) && SS(r0) != nil && fresh(SS(r0)) && forallv(x, has(SS(r0), x) == has(theMap, x)) && forallv(x, has(theMap, x) ==> SS(r0)[x] == theMap[x])
+
+//@ func (StreamSetDef).Clone
+//@   prop C04,C05
+//@   requires streamSetSelf != nil
+//@   ensures fresh-result: r0 != nil && fresh(r0) && SS(r0) != nil && fresh(SS(r0))
+//@   ensures same-keys: forallv(x, has(SS(r0), x) == has(SS(streamSetSelf), x))
+//@   ensures deep: forallv(x, has(SS(r0), x) ==> (SS(streamSetSelf)[x] == nil ==> SS(r0)[x] == nil) && (SS(streamSetSelf)[x] != nil ==> SS(r0)[x] != nil && fresh(SS(r0)[x]) && fresh(*SS(r0)[x]) && seqeq(*SS(r0)[x], *SS(streamSetSelf)[x])))
+//@ func (StreamSetDef).Clone loop 0
+//@   invariant result: result != nil && fresh(result) && SS(result) != nil && fresh(SS(result)) && SS(result) == _m
+//@   invariant same-keys: forallv(x, has(SS(result), x) == has(SS(streamSetSelf), x))
+//@   invariant visited-deep: forallv(x, _visited(x) ==> (SS(streamSetSelf)[x] == nil ==> SS(result)[x] == nil) && (SS(streamSetSelf)[x] != nil ==> SS(result)[x] != nil && fresh(SS(result)[x]) && fresh(*SS(result)[x]) && seqeq(*SS(result)[x], *SS(streamSetSelf)[x])))
+//@   invariant rest-shared: forallv(x, has(SS(result), x) && !_visited(x) ==> SS(result)[x] == SS(streamSetSelf)[x])
+
+//@ define SUBTRACTS(k) = has(SS(input), k) && SS(input)[k] != nil && len(*SS(input)[k]) > 0
+//@ func (StreamSetDef).MinusStreams
+//@   prop C04,C05
+//@   requires streamSetSelf != nil
+//@   ensures empty-operand: input == nil || len(SS(input)) == 0 ==> r0 != nil && fresh(r0) && len(SS(r0)) == 0
+//@   ensures fresh-result: input != nil && len(SS(input)) > 0 ==> r0 != nil && fresh(r0) && SS(r0) != nil && fresh(SS(r0))
+//@   ensures keys-unchanged: input != nil && len(SS(input)) > 0 ==> forallv(x, has(SS(r0), x) == has(SS(streamSetSelf), x))
+//@   ensures untouched-keys-copied: input != nil && len(SS(input)) > 0 ==> forallv(x, has(SS(r0), x) && !SUBTRACTS(x) ==> (SS(streamSetSelf)[x] == nil ==> SS(r0)[x] == nil) && (SS(streamSetSelf)[x] != nil ==> SS(r0)[x] != nil && fresh(SS(r0)[x]) && seqeq(*SS(r0)[x], *SS(streamSetSelf)[x])))
+//@   ensures subtracted: input != nil && len(SS(input)) > 0 ==> forallv(x, has(SS(r0), x) && SUBTRACTS(x) ==> SS(r0)[x] != nil && fresh(SS(r0)[x]) && (SS(streamSetSelf)[x] == nil ==> len(*SS(r0)[x]) == 0) && (SS(streamSetSelf)[x] != nil ==> len(*SS(r0)[x]) <= len(*SS(streamSetSelf)[x]) && forall(j, 0, len(*SS(r0)[x]), CONTAINS(*SS(streamSetSelf)[x], (*SS(r0)[x])[j]) && !CONTAINS(*SS(input)[x], (*SS(r0)[x])[j]))))
+//@ func (StreamSetDef).MinusStreams loop 0
+//@   invariant result: result != nil && fresh(result) && SS(result) != nil && fresh(SS(result)) && SS(result) == _m
+//@   invariant keys-unchanged: forallv(x, has(SS(result), x) == has(SS(streamSetSelf), x))
+//@   invariant untouched-keys-copied: forallv(x, has(SS(result), x) && (!SUBTRACTS(x) || !_visited(x)) ==> (SS(streamSetSelf)[x] == nil ==> SS(result)[x] == nil) && (SS(streamSetSelf)[x] != nil ==> SS(result)[x] != nil && fresh(SS(result)[x]) && fresh(*SS(result)[x]) && seqeq(*SS(result)[x], *SS(streamSetSelf)[x])))
+//@   invariant subtracted: forallv(x, has(SS(result), x) && SUBTRACTS(x) && _visited(x) ==> SS(result)[x] != nil && fresh(SS(result)[x]) && (SS(streamSetSelf)[x] == nil ==> len(*SS(result)[x]) == 0) && (SS(streamSetSelf)[x] != nil ==> len(*SS(result)[x]) <= len(*SS(streamSetSelf)[x]) && forall(j, 0, len(*SS(result)[x]), CONTAINS(*SS(streamSetSelf)[x], (*SS(result)[x])[j]) && !CONTAINS(*SS(input)[x], (*SS(result)[x])[j]))))
